@@ -83,6 +83,7 @@ class Store(kv.LMDBStorage):
         self.subscription_class = StubSub
         self.check_output = None
         self.writer_queue = _queue.SimpleQueue()
+        self.writer_thread = types.SimpleNamespace(pending=set(), queue=self.writer_queue)
         self.db = None
         self.validated = []
 
@@ -98,6 +99,12 @@ class Store(kv.LMDBStorage):
         while not self.writer_queue.empty():
             out.append(self.writer_queue.get())
         return out
+
+    def run_writer(self, env):
+        """let the (real) writer loop process everything queued so far; it shares the storage's pending set"""
+        from envmodel import kvworld
+        wt = kvworld.run_writer(env, self.queued(), pending=getattr(self.writer_thread, "pending", None))
+        return wt
 
 
 class ClientID:
